@@ -30,7 +30,7 @@ ASSUMPTIONS = [
     'files <= 64 kB',
 ]
 PROBES = ['two_readers_interleaved', 'span_ge3_vr', 'seg16', 'pad_ge4', 'zero_payload', 'chk_and_trail', 'vr20', 'vr16384', 'seq_with_zero',
-          'maxlen_with_zero', 'encrypted', 'pad_ge100', 'second_pass', 'history_before_scan', 'iterator_created_before_history', 'reader_reentered', 'file_object_with_foreign_fileno', 'file_object_not_at_start']
+          'maxlen_with_zero', 'encrypted', 'pad_ge100', 'second_pass', 'history_before_scan', 'iterator_created_before_history', 'reader_reentered', 'file_object_with_foreign_fileno', 'file_object_not_at_start', 'peek_during_scan']
 
 File = None
 
@@ -45,6 +45,14 @@ def generate(seed, tier):
     rng = seeds.Rng(seed)
     model = D.gen_model(rng)
     sc = {'world': 'dlis_phys', 'model': model, 'passes': 2 if rng.chance(0.3) else 1}
+    if rng.chance(0.15):
+        # while the sequential read is under way the caller looks into the record just delivered through the random access call
+        # of the same reader (whole, or the first bytes), then carries on reading: {record index: [offset, length]}
+        peeks = {}
+        for i in rng.sample(range(len(model['records'])), min(len(model['records']), rng.randrange(1, 4))):
+            total = sum(s_['n'] for s_ in model['records'][i]['segs'])
+            peeks[str(i)] = [rng.pick([0, 0, 1, max(0, total // 2)]), rng.pick([-1, 0, 1, 8, 8, max(1, total // 3), total + 5])]
+        sc['peeks'] = peeks
     if rng.chance(0.12):
         sc['start_offset'] = rng.pick(['end', 'end', 1, 20, 80, 84, 200])
     if rng.chance(0.1):
@@ -161,7 +169,7 @@ def run_history_op(res, reader, layout, op):
     res.ev('history', kind, n)
 
 
-def sequential_read(res, reader, layout, tag, history=None):
+def sequential_read(res, reader, layout, tag, history=None, peeks=None):
     """Drives iter_logical_records() on an entered FileRead; compares as each record is yielded.
     Returns the list of payloads actually read (None on exception)."""
     exp = layout['records']
@@ -200,6 +208,19 @@ def sequential_read(res, reader, layout, tag, history=None):
             if (fld.position.vr_position, fld.position.lrsh_position) != (e['vr_pos'], e['lrsh_pos']):
                 res.violation('record-position', f'record {i}: position VR {fld.position.vr_position} LRSH {fld.position.lrsh_position}, '
                               f'written VR {e["vr_pos"]} LRSH {e["lrsh_pos"]}', record=i)
+            if peeks and str(i) in peeks:
+                off, ln = peeks[str(i)]
+                res.probe('peek_during_scan')
+                res.op('peek')
+                try:
+                    pk = reader.get_file_logical_data(fld.position, off, ln).logical_data.bytes
+                    want = e['payload'][off:] if ln < 0 else e['payload'][off:off + ln]
+                    if pk != want:
+                        res.violation('record-payload', f'record {i}: looking into the record just delivered (offset {off}, length {ln}) returned {len(pk)} bytes, '
+                                      f'expected {len(want)}', segments=len(e['segs']), n_vrs=e['n_vrs'], encrypted=e['enc'], peek=True)
+                except Exception as err:
+                    res.violation('read-exception', f'record {i}: looking into the record just delivered (offset {off}, length {ln}) raised {type(err).__name__}: {err}',
+                                  exc=type(err).__name__, peek=True)
     except Exception as err:
         res.violation('read-exception', f'{type(err).__name__}: {err} after {len(got)} records', exc=type(err).__name__)
         return None
@@ -248,7 +269,8 @@ def execute(scenario):
         res.op('scan')
         if p:
             res.probe('second_pass')
-        sequential_read(res, reader, layout, f'scan{p}', scenario.get('history') if p == scenario.get('passes', 1) - 1 else None)
+        sequential_read(res, reader, layout, f'scan{p}', scenario.get('history') if p == scenario.get('passes', 1) - 1 else None,
+                        scenario.get('peeks') if p == 0 else None)
     if scenario.get('reenter') is not None:
         res.probe('reader_reentered')
         res.op('reenter')
@@ -344,6 +366,11 @@ def candidates(scenario):
             yield dict(scenario, schedule=[0, 1])
     if scenario.get('passes', 1) > 1:
         yield dict(scenario, passes=1)
+    if scenario.get('peeks'):
+        yield {k: v for k, v in scenario.items() if k != 'peeks'}
+        for key_ in scenario['peeks']:
+            if len(scenario['peeks']) > 1:
+                yield dict(scenario, peeks={k: v for k, v in scenario['peeks'].items() if k != key_})
     if scenario.get('reenter') is not None:
         yield {k: v for k, v in scenario.items() if k != 'reenter'}
         if scenario['reenter'] != 'same':
